@@ -20,6 +20,10 @@ Path / loop summaries of Sequence, Optional, Ref and the two normalisers:
      compiled, callable -> as is, anything else -> ValueError; no closure captures a loop
      variable anywhere in the package.
 Values produced by user callbacks are not decided.
+
+Round 4: whichever method of Sequence _compile installs behind .unpack for a mode is held to
+the event language of that mode; the normalisers are checked by role (count / condition), whether
+they are two functions or one told its role by a constant argument.
 """
 import ast
 
